@@ -3,9 +3,10 @@
    nat, positive, N, Z stay the Coq datatypes (converted in the driver). *)
 From Coq Require Extraction.
 From Coq Require Import ExtrOcamlBasic.
-From Fibre Require Import Common.Base Cache.PolicySpec Cache.PolicyLru Cache.PolicySieve.
+From Fibre Require Import Common.Base Cache.PolicySpec Cache.PolicyLru Cache.PolicySieve
+     Cache.PolicySlru Cache.PolicyRandom Cache.PolicyArc Cache.PolicyTinyLfu.
 
 Extraction Language OCaml.
 Set Extraction KeepSingleton.
 Extraction "model_policy.ml"
-  prun LruP FifoP SieveP ClockP.
+  prun LruP FifoP SieveP ClockP SlruP ArcP RandomReplayP TinyLfuReplayP.
